@@ -22,10 +22,19 @@ package x11fw
 //	c12  enforce: packets at the upstreams <= outbound budget; shadow/enforce:
 //	     the k-th packet arrives with the ledger already >= k (debit first);
 //	     an over-budget reply is SERVFAIL and is not served to the next client
+//	     (any budget: a `prework` behaviour has the primary resolution rejected
+//	     on a non-outbound one while outbound budget is left)
 //	c19  no client EDNS option reaches an upstream except a policy-clamped ECS
+//	c06  the reply contract on the raw bytes of every reply, whatever ended the
+//	     walk (relayed answer of a forwarder / fallback, retained upstream
+//	     failure of either walk, synthesised / over-budget / request-local
+//	     SERVFAIL): QR, the query's ID and opcode, the question, no OPT unless
+//	     asked, AD discipline, no client subnet / upstream keepalive / cookie /
+//	     padding / foreign option reflected, UDP size
 
 import (
 	"context"
+	"encoding/binary"
 	"encoding/json"
 	"fmt"
 	"net"
@@ -121,6 +130,7 @@ type clientObs struct {
 	HasOPT   bool     `json:"hasOpt"`
 	SentOPT  bool     `json:"sentOpt"`
 	Problems []string `json:"problems"`
+	Echo     []string `json:"echo"` // violated clauses of the C06 reply contract ("clause: detail")
 }
 
 func addr(tcp bool, ip net.IP, port int) net.Addr {
@@ -166,6 +176,7 @@ func buildQuery(name string, id uint16, shape int) (q *dns.Msg, raw, tcp bool, d
 
 func ask(w *world, name string, id uint16, shape int, clientIP net.IP) clientObs {
 	q, raw, tcp, desc := buildQuery(name, id, shape)
+	asked := q.Copy() // the server normalises the request's OPT in place: the contract is judged against what was sent
 	o := clientObs{Shape: desc, ID: id, Rcode: -1, SentOPT: q.IsEdns0() != nil}
 	var writes [][]byte
 	var at []time.Time
@@ -201,6 +212,7 @@ func ask(w *world, name string, id uint16, shape int, clientIP net.IP) clientObs
 	} else {
 		o.FirstMs = o.ReturnMs
 	}
+	o.Echo = echoContract(asked, tcp, writes[0])
 	m := new(dns.Msg)
 	if err := m.Unpack(writes[0]); err != nil {
 		o.Problems = append(o.Problems, "reply does not unpack: "+err.Error())
@@ -250,6 +262,108 @@ func ask(w *world, name string, id uint16, shape int, clientIP net.IP) clientObs
 		}
 	}
 	return o
+}
+
+// echoContract: the C06 statement on the raw bytes of one reply to query q (the clauses of harness/serve's contract
+// that apply to a well-formed QUERY; an upstream's AD / options are the upstream's, never the client's).
+func echoContract(q *dns.Msg, tcp bool, reply []byte) (out []string) {
+	bad := func(clause, format string, a ...any) { out = append(out, clause+": "+fmt.Sprintf(format, a...)) }
+	if len(reply) < 12 {
+		bad("short", "reply shorter than a DNS header")
+		return
+	}
+	id, fl := binary.BigEndian.Uint16(reply[0:]), binary.BigEndian.Uint16(reply[2:])
+	if fl&0x8000 == 0 {
+		bad("qr", "reply without QR")
+	}
+	if id != q.Id {
+		bad("id", "reply ID %d, query ID %d", id, q.Id)
+	}
+	if int(fl>>11)&0xF != q.Opcode {
+		bad("opcode", "reply opcode %d, query opcode %d", int(fl>>11)&0xF, q.Opcode)
+	}
+	m := new(dns.Msg)
+	if err := m.Unpack(reply); err != nil {
+		bad("undecodable", "reply does not decode: %v", err)
+		return
+	}
+	qq := q.Question[0]
+	if len(m.Question) != 1 || !strings.EqualFold(m.Question[0].Name, qq.Name) || m.Question[0].Qtype != qq.Qtype || m.Question[0].Qclass != qq.Qclass {
+		bad("question", "question not echoed: %v", m.Question)
+	}
+	qopt, ropt := q.IsEdns0(), m.IsEdns0()
+	if ropt != nil && qopt == nil {
+		bad("opt-unasked", "reply carries an OPT, the query had none")
+	}
+	do := qopt != nil && qopt.Do()
+	if !do {
+		for _, rr := range append(append([]dns.RR{}, m.Answer...), m.Ns...) {
+			switch rr.(type) {
+			case *dns.RRSIG, *dns.NSEC, *dns.NSEC3:
+				bad("dnssec-unasked", "DNSSEC record %s sent without DO", dns.TypeToString[rr.Header().Rrtype])
+			}
+		}
+	}
+	if m.AuthenticatedData && (q.CheckingDisabled || !(do || q.AuthenticatedData)) {
+		bad("ad", "AD set toward a client with CD=%v DO=%v AD=%v", q.CheckingDisabled, do, q.AuthenticatedData)
+	}
+	var ccookie string
+	var askedNSID, askedKeepalive bool
+	if qopt != nil {
+		for _, o := range qopt.Option {
+			switch v := o.(type) {
+			case *dns.EDNS0_COOKIE:
+				ccookie = v.Cookie
+			case *dns.EDNS0_NSID:
+				askedNSID = true
+			case *dns.EDNS0_TCP_KEEPALIVE:
+				askedKeepalive = true
+			}
+		}
+	}
+	if ropt != nil {
+		for _, o := range ropt.Option {
+			switch v := o.(type) {
+			case *dns.EDNS0_SUBNET:
+				bad("ecs-reflected", "client-subnet option in the reply: %s", v.String())
+			case *dns.EDNS0_COOKIE:
+				if ccookie == "" {
+					bad("cookie-unasked", "server cookie returned, no client cookie sent")
+				} else if len(v.Cookie) < 16 || !strings.EqualFold(v.Cookie[:16], ccookie[:16]) {
+					bad("cookie-foreign", "cookie in the reply does not start with the client cookie: %s", v.Cookie)
+				}
+			case *dns.EDNS0_TCP_KEEPALIVE:
+				if !(askedKeepalive && tcp) {
+					bad("keepalive", "keepalive option toward a client that did not ask over TCP")
+				}
+			case *dns.EDNS0_NSID:
+				if !askedNSID {
+					bad("nsid-unasked", "NSID returned, not requested")
+				}
+			case *dns.EDNS0_EDE:
+			case *dns.EDNS0_PADDING:
+				bad("foreign-option", "padding option reflected to the client")
+			default:
+				bad("foreign-option", "option %d in the reply (%s)", o.Option(), o.String())
+			}
+		}
+	}
+	if !tcp {
+		limit := 512
+		if qopt != nil {
+			limit = int(qopt.UDPSize())
+		}
+		if limit > 1232 {
+			limit = 1232
+		}
+		if limit < 512 {
+			limit = 512
+		}
+		if len(reply) > limit && !(m.Truncated && len(m.Answer) == 0 && len(m.Ns) == 0 && (len(m.Extra) == 0 || (len(m.Extra) == 1 && ropt != nil))) {
+			bad("udp-size", "UDP reply of %d bytes exceeds %d and is not a bare TC reply", len(reply), limit)
+		}
+	}
+	return out
 }
 
 type caseResult struct {
@@ -390,6 +504,12 @@ func TestForwardReplay(t *testing.T) {
 		sort.Slice(sends, func(i, j int) bool { return sends[i].Seq < sends[j].Seq })
 		key := fmt.Sprintf("%s nf=%d nb=%d %s/%d %s script=%s pre=%v dup=%d", g.Transport, g.NF, g.NB, g.Mode, g.Cap,
 			map[bool]string{true: "ecs", false: "noecs"}[g.ECS], strings.Join(c.Script, ","), c.Pre, c.Dup)
+		if c.PreWork != "" && c.PreWork != "none" {
+			key += " prework=" + c.PreWork
+		}
+		if c.UpOpts {
+			key += " upopts"
+		}
 		res.Case(key)
 		rep := map[string]any{"driver": "forward-replay", "group": map[string]any{"nf": g.NF, "nb": g.NB, "mode": g.Mode,
 			"cap": g.Cap, "ecs": g.ECS, "transport": g.Transport}, "case": c, "name": cr.name, "packets": sends,
@@ -435,6 +555,25 @@ func TestForwardReplay(t *testing.T) {
 					res.DriftNote("%s: %s reply rcode %s", key, who, rcName(o.Rcode))
 				}
 			}
+		}
+
+		// ---- C06 at the client: the reply contract, whatever ended the walk ----
+		for k, o := range r.clients {
+			for _, p := range o.Echo {
+				clause, detail, _ := strings.Cut(p, ": ")
+				layer := ""
+				if outer.N >= 1 && outer.MsgID != outer.ReqID {
+					layer = fmt.Sprintf(" [failover handed up a %s/%s message under transaction ID %d, the client request's is %d]",
+						outer.Kind, rcName(outer.Rcode), outer.MsgID, outer.ReqID)
+				}
+				vio("c06", clause, fmt.Sprintf("client %d (%s, id %d), %s reply: %s%s", k, o.Shape, o.ID, rcName(o.Rcode), detail, layer))
+			}
+			if o.Replies >= 1 {
+				res.Count("echo_judged", 1)
+			}
+		}
+		if outer.N == 1 {
+			res.Count(fmt.Sprintf("outcome_%s_%s%s", outer.Kind, outer.Mark, map[bool]string{true: "_fallback", false: ""}[outer.From > g.NF]), 1)
 		}
 
 		// ---- C19 at the upstreams ----
@@ -488,13 +627,31 @@ func TestForwardReplay(t *testing.T) {
 					res.Count("packets_with_ledger", seen)
 				}
 			}
+			if c.PreWork != "" && c.PreWork != "none" {
+				res.Count("prework_"+c.PreWork+"_"+g.Mode, 1)
+				if inner.N == 1 && inner.Latched {
+					res.Count("prework_rejected", 1)
+					if inner.Work != c.PreWork {
+						res.DriftNote("%s: prework %s, the ledger latched %q", key, c.PreWork, inner.Work)
+					}
+				}
+			}
 			if outer.N > 0 && outer.Latched && g.Mode == "enforce" {
 				for _, o := range r.clients {
 					if o.Replies >= 1 && o.Rcode != dns.RcodeServerFailure {
-						vio("c12", "over-budget-reply", fmt.Sprintf("the ledger latched an outbound rejection but the client got %s", rcName(o.Rcode)))
+						vio("c12", "over-budget-reply", fmt.Sprintf("the request tree's ledger latched a rejection on its %s budget (outbound attempts debited: %d) but the client got %s, not the over-budget SERVFAIL%s",
+							outer.Work, outer.Debits, rcName(o.Rcode), map[bool]string{true: fmt.Sprintf(" (%d packets reached the upstreams after the primary resolution was refused)", len(sends)), false: ""}[c.PreWork != "" && c.PreWork != "none"]))
 					}
-					if o.Replies >= 1 && o.SentOPT && len(o.EDE) == 0 {
-						res.DriftNote("%s: over-budget SERVFAIL to an EDNS client without an Extended DNS Error", key)
+					if o.Replies >= 1 && o.SentOPT {
+						res.Count("overbudget_edns", 1)
+						if len(o.EDE) > 0 {
+							res.Count("overbudget_edns_ede", 1)
+						}
+					}
+					// "the over-budget reply is a SERVFAIL (with an Extended DNS Error for EDNS clients)"
+					if o.Replies >= 1 && o.SentOPT && o.Rcode == dns.RcodeServerFailure && len(o.EDE) == 0 {
+						vio("c12", "over-budget-no-ede", fmt.Sprintf("the over-budget SERVFAIL (rejected budget: %s) reached the EDNS client %s without an Extended DNS Error (OPT in the reply: %v)",
+							outer.Work, o.Shape, o.HasOPT))
 					}
 				}
 			}
@@ -535,6 +692,9 @@ func TestForwardReplay(t *testing.T) {
 			}
 			cmp("forwarder", inner, e.M)
 			cmp("failover", outer, e.Reply)
+			if outer.N == 1 && e.Reply.ID == "client" && outer.MsgID != outer.ReqID {
+				diffs = append(diffs, fmt.Sprintf("failover handed up transaction ID %d for request %d, model: the client's", outer.MsgID, outer.ReqID))
+			}
 			if outer.N == 1 {
 				if outer.Latched != e.Latched {
 					diffs = append(diffs, fmt.Sprintf("latched: code %v, model %v", outer.Latched, e.Latched))
@@ -594,7 +754,11 @@ func TestForwardReplay(t *testing.T) {
 			if capv == 0 {
 				capv = 1
 			}
-			ls := []tl{{cr.first, map[string]any{"ev": "reset", "c": cr.name, "mode": g.Mode, "cap": capv, "pre": pre}}}
+			pw := c.PreWork
+			if pw == "" {
+				pw = "none"
+			}
+			ls := []tl{{cr.first, map[string]any{"ev": "reset", "c": cr.name, "mode": g.Mode, "cap": capv, "pre": pre, "prework": pw}}}
 			for _, ev := range sends {
 				ls = append(ls, tl{ev.Seq, map[string]any{"ev": "send", "s": ev.Srv, "p": ev.Proto, "f": ev.Fault, "ledger": ev.Ledger, "debits": ev.Debits}})
 			}
